@@ -195,20 +195,22 @@ def worlds(ctx, focus, rnd):
     return out, combos
 
 
-def run(ctx, prop, focus):
-    """focus: which forged-message family gets the weight (64 / 22 / 32 / None)."""
+def run(ctx, prop, focus, restart_weight=False, light=False):
+    """focus: which forged-message family gets the weight (64 / 22 / 32 / None); restart_weight: the
+    random driver restarts the server side (handler, responders, database reopened) far more often."""
     quick = ctx.quick()
     rnd = random.Random(ctx.seed)
     ctx.build_vh()
     # 1. design-level check
-    ctx.model_check("Server", "Server_MC.cfg" if quick else "Server_MC_big.cfg", timeout=3000)
+    if not light:
+        ctx.model_check("Server", "Server_MC.cfg" if quick else "Server_MC_big.cfg", timeout=3000)
     # 2. TLC-generated behaviours, executed in several world configurations
     ws, combos = worlds(ctx, focus, rnd)
     f64 = FORGE64 if focus in (64, None) else FORGE64[:2]
     f22 = FORGE22 if focus in (22, None) else FORGE22[:2]
     f32 = FORGE32 if focus in (32, None) else FORGE32[:2]
     behaviours = []
-    ngen = 40 if quick else 400
+    ngen = (40 if quick else 400) if not light else 8
     per_combo_cap = 120 if quick else 1500
     for ci, (reuse, nmods, pol) in enumerate(combos):
         acts = generate(ctx, reuse, nmods, ngen, 12 if quick else 16, ctx.seed * 7 + ci, f64, f22, f32, policy=pol)
@@ -236,7 +238,8 @@ def run(ctx, prop, focus):
     rb = os.path.join(wd, "random-behaviours.json")
     forge = {"64": f64, "22": f22, "32": f32}
     ctx.run_vh(["srv-random", "-n", 160 if quick else 3000, "-len", 16 if quick else 24, "-seed", ctx.seed,
-                "-cfgs", json.dumps(ws), "-forge", json.dumps(forge), "-focus", focus or 0, "-out", rpath, "-behaviours", rb], timeout=3000)
+                "-cfgs", json.dumps(ws), "-forge", json.dumps(forge), "-focus", focus or 0, "-restarts", 30 if restart_weight else 2,
+                "-out", rpath, "-behaviours", rb], timeout=3000)
     evs2 = read_ndjson(rpath)
     with open(rb) as f:
         _attach(evs2, json.load(f))
@@ -258,6 +261,7 @@ def run(ctx, prop, focus):
     ctx.notes["world_configurations"] = len(ws)
     ctx.notes["runs_from_tlc"] = n1
     ctx.notes["runs_from_random_driver"] = n2
+    ctx.notes["restarts_executed"] = sum(1 for e in real if e["kind"] == "restart")
     if focus and not forged:
         raise Inconclusive("no forged exchange was executed (vacuous run)")
     ctx.assumptions += ["TLC 1.8.0 and the CommunityModules Json module",
